@@ -1459,10 +1459,14 @@ func asUncatchableException(v interface{}) error {
 func (r *Runtime) RunProgram(p *Program) (result Value, err error) {
 	vm := r.vm
 	recursive := len(vm.callStack) > 0
+	entered := false
 	defer func() {
 		if recursive {
-			vm.sp -= 2
-			vm.popCtx()
+			// pushCtx() below may have failed (stack overflow): then there is no frame of ours to remove
+			if entered {
+				vm.sp -= 2
+				vm.popCtx()
+			}
 		} else {
 			vm.callStack = vm.callStack[:len(vm.callStack)-1]
 		}
@@ -1483,6 +1487,7 @@ func (r *Runtime) RunProgram(p *Program) (result Value, err error) {
 	}()
 	if recursive {
 		vm.pushCtx()
+		entered = true
 		vm.stash = &r.global.stash
 		vm.privEnv = nil
 		vm.newTarget = nil
